@@ -209,6 +209,19 @@ class VArr(_Generic):
     def __getitem__(self, key):
         if isinstance(key, VArr):
             raise Unsupported("selection of elements by a mask (data-dependent shape)")
+        if isinstance(key, tuple) and len(key) == self.ndim and all(type(k).__name__ == "GVec" for k in key):
+            # a[i0, i1, i2] with one integer index vector per axis (one entry per row of a table): one picked element per row.
+            # numpy would wrap negative indices; the model requires 0 <= index < size (obligation), which is what callers are expected to guard
+            from .frames import GVec, _same_space
+            sub = {}
+            for a, k in enumerate(key):
+                _same_space(key[0].space, k.space, "index vectors of one fancy-indexing expression")
+                kt = to_z3(k.val)
+                if kt.sort().kind() != z3.Z3_INT_SORT:
+                    raise ModelRaise("IndexError", "arrays used as indices must be of integer (or boolean) type")
+                ctx().oblige("safe.index-in-range", z3.Implies(to_bool_any(key[0].present), z3.And(kt >= 0, kt < _size_t(self.shape_[a]))), kind="safe", detail=f"fancy index along axis {a}")
+                sub[a] = kt
+            return GVec(subst_index(self.elem, sub), key[0].space, key[0].present)
         key = self._parse_key(key)
         sub, shape, ax_old, new_ax = {}, [], 0, 0
         moves = {}
@@ -481,6 +494,10 @@ class MGrid:
             import numpy as np
             return np.mgrid[key]
         return [VArr(shape, SV(V(a)), "int64") for a in range(len(shape))]
+
+
+def to_bool_any(p):
+    return p if z3.is_expr(p) else z3.BoolVal(bool(p))
 
 
 class IndexMap(_Generic):
